@@ -355,7 +355,13 @@ class SFixed(Template[_FixedTemplateArg], AssignableType):
                 overflow_bits = self._val.lsb(rest=1).msb(overflow_bitcnt)
 
                 does_overflow = not sign_bit and overflow_bits
-                does_underflow = sign_bit and ~overflow_bits
+
+                if overflow >= self._width:
+                    # no bit of the source falls inside the target range,
+                    # every negative value is below the target minimum
+                    does_underflow = bool(sign_bit)
+                else:
+                    does_underflow = sign_bit and ~overflow_bits
 
                 if selfright >= right:
                     zeros = selfright - right
